@@ -331,7 +331,7 @@ auto ebpps_sketch<T,A>::serialize(unsigned header_size_bytes, const SerDe& sd) c
   const size_t size = header_size_bytes + (prelongs << 3) + sample_.get_serialized_size_bytes(sd);
   vector_bytes bytes(size, 0, allocator_);
   uint8_t* ptr = bytes.data() + header_size_bytes;
-  const uint8_t* end_ptr = ptr + size;
+  const uint8_t* end_ptr = bytes.data() + size;
 
   uint8_t flags = 0;
   if (is_empty()) {
@@ -433,7 +433,7 @@ ebpps_sketch<T,A> ebpps_sketch<T,A>::deserialize(const void* bytes, size_t size,
   ebpps_sample<T, A> sample = pair.first;
   ptr += pair.second;
 
-  if (sample.has_partial_item() != bool(flags & HAS_PARTIAL_ITEM_MASK))
+  if (sample.has_partial_item() != bool(flags & HAS_PARTIAL_ITEM_MASK) || sample.get_c() == 0.0)
     throw std::runtime_error("sketch fails internal consistency check");
 
   return ebpps_sketch(k, n, cumulative_wt, wt_max, rho, std::move(sample), allocator);
@@ -466,7 +466,7 @@ ebpps_sketch<T,A> ebpps_sketch<T,A>::deserialize(std::istream& is, const SerDe& 
 
   auto sample = ebpps_sample<T,A>::deserialize(is, sd, allocator);
 
-  if (sample.has_partial_item() != bool(flags & HAS_PARTIAL_ITEM_MASK))
+  if (sample.has_partial_item() != bool(flags & HAS_PARTIAL_ITEM_MASK) || sample.get_c() == 0.0)
     throw std::runtime_error("sketch fails internal consistency check");
 
   return ebpps_sketch(k, n, cumulative_wt, wt_max, rho, std::move(sample), allocator);
